@@ -373,6 +373,8 @@ func (s *socket) MaybeUpgrade(transport transports.Transport) {
 	var check, cleanup func()
 	var onPacket, onError, onTransportClose, onClose events.Listener
 	var upgradeTimeoutTimer, checkIntervalTimer atomic.Pointer[utils.Timer]
+	// set once the candidate's probe ping has been answered
+	var probed atomic.Bool
 
 	onPacket = func(datas ...any) {
 		data := datas[0].(*packet.Packet)
@@ -381,6 +383,7 @@ func (s *socket) MaybeUpgrade(transport transports.Transport) {
 		if data.Type == packet.PING && sb.String() == "probe" {
 			socket_log.Debug("got probe ping packet, sending pong")
 			transport.Send([]*packet.Packet{{Type: packet.PONG, Data: strings.NewReader("probe")}})
+			probed.Store(true)
 			s.Emit("upgrading", transport)
 
 			if !s.upgrading.Load() {
@@ -396,7 +399,10 @@ func (s *socket) MaybeUpgrade(transport transports.Transport) {
 				utils.ClearInterval(checkIntervalTimer.Load())
 			}
 
-		} else if packet.UPGRADE == data.Type && s.ReadyState() != "closed" {
+		} else if packet.UPGRADE == data.Type && s.ReadyState() != "closed" && probed.Load() {
+			// (an upgrade packet from a candidate whose probe has not been answered is
+			// an unexpected packet like any other: the transports are switched only
+			// after the probe exchange)
 			socket_log.Debug("got upgrade packet - upgrading")
 			cleanup()
 			s.Transport().Discard()
